@@ -13,10 +13,12 @@ CLAIMED = {
  "C14": dict(engine="wire-sim", ref="DESIGN.md 3 C14", technique="deterministic simulation: generated consumption programs x body framings x seeded fragmentation against the real streaming server loop with a pipelined probe request; prefix/EOF oracles, blocked read = simulator deadlock, probe-request identity",
    text="Seeded exploration of (streamed request, handler consumption program, delivery schedule) triples on a simulated connection: bytes read must be a prefix of the body, EOF exactly at its end, a read that waits for bytes beyond the body is reported as a simulator deadlock, and the next handler invocation must be exactly the pipelined probe (bodies include bytes that read as chunk framing plus a request if misparsed) or the connection must be closed. Stop points are exhaustive for bodies up to 64 bytes.",
    note=SIMNOTE),
+ "C04": dict(engine="wire-sim", ref="DESIGN.md 3 C04", technique="deterministic simulation: generated handler programs x request sequences x seeded request fragmentation and write backpressure against the real server; independent strict response reader + net/http as decoders",
+   text="Seeded exploration of handler programs (status x header ops x every body mode incl. streams of known/unknown length with awkward readers and the hijacked chunked writer) over sequences of requests on one simulated connection; every response must decode, with the harness's strict reader and with net/http, to exactly the program's status, header fields, body and trailers, bodiless statuses carry no body, and each response starts where the previous one ended.",
+   note=SIMNOTE),
 }
 PENDING = {
  "C03": "check not built yet in this session (planned: wire-sim, DESIGN.md 3 C03)",
- "C04": "check not built yet in this session (planned: wire-sim, DESIGN.md 3 C04)",
  "C08": "check not built yet in this session (planned: conc-sim, DESIGN.md 3 C08)",
  "C09": "check not built yet in this session (planned: wire-sim + conc-sim, DESIGN.md 3 C09)",
  "C10": "check not built yet in this session (planned: conc-sim, DESIGN.md 3 C10)",
